@@ -25,10 +25,10 @@ RULE = ('modules from tools/gen/irgen.py (seeded; all features incl. shuffled bl
         'writer case (real dict vs model JSON) and one round-trip case (real from_json(to_json) vs model); '
         'non-trivial = module with at least one function whose real round trip terminates normally')
 EXPLANATION = ('Coq theorems about Model.IrJson (hand model of io.py, fixed configuration = /repo + fixes/C16-*.diff): '
-               'refutations of the round trip for the code as it is (one well-formed witness per defect, 5 defects of '
-               'io.py + 2 known findings in ir.replace_use), unbounded round trip of types, byte blobs (bin2asc/asc2bin), '
+               'refutations of the round trip for the code as found (one well-formed witness per defect: 5 defects of '
+               'io.py + 3 of ir.py replace_use reached through the reader, all fixed in /repo now), unbounded round trip of types, byte blobs (bin2asc/asc2bin), '
                'constants, externals and global variables WITH initial values, and the whole-module round trip on a '
-               'generated corpus of 16 modules incl. loops and shuffled block order (bounded, vm_compute). NOT proved: the '
+               'generated corpus of 19 modules incl. loops, shuffled block order, forward double uses and repeated forward call arguments (bounded, vm_compute). NOT proved: the '
                'unbounded per-instruction and module-level theorems (reader state invariant with forward-reference '
                'patching); they are covered only by the bounded theorem and the per-run correspondence.')
 TRUSTED = ['hand model coq/Model/IrJson.v (cross-checked against io.py on every run, both directions)',
@@ -40,7 +40,8 @@ ASSUMPTIONS = ['well-formed = Spec.IRSyntax.wf_modul: names of parameters/values
                'forward references (uses before definitions in print order) are only covered by the bounded corpus '
                'theorem and the correspondence, not by an unbounded theorem']
 
-FLAGS = ('fix_value', 'fix_volatile', 'fix_copyblob', 'fix_undefined', 'fix_fwdtype')
+FLAGS = ('fix_value', 'fix_volatile', 'fix_copyblob', 'fix_undefined', 'fix_fwdtype',
+         'fix_ru_generic', 'fix_ru_phi', 'fix_ru_call')
 
 
 # ---------------------------------------------------------------- witnesses (one per defect)
@@ -98,13 +99,30 @@ def witnesses(ir):
         return m
     out['fix_fwdtype'] = fwd(lambda m, x: [ir.Unop('-', x, 'y', ir.i32)], ir.i32)
     # defects of ir.Instruction.replace_use / ProcedureCall.replace_use reached through DictReader
-    out['fwd_double_use'] = fwd(lambda m, x: [ir.Store(x, x)], ir.ptr)
+    out['fix_ru_generic'] = fwd(lambda m, x: [ir.Store(x, x)], ir.ptr)
+    # phi whose two inputs are the same later-listed value (Phi.replace_use)
+    m, f, b = _proc(ir)
+    bj, ba, bb, bd = ir.Block('j'), ir.Block('a'), ir.Block('b'), ir.Block('d')
+    for k in (bj, ba, bb, bd):
+        f.add_block(k)
+    b.add_instruction(ir.Jump(bd))
+    x = ir.Const(3, 'x', ir.i32)
+    bd.add_instruction(x)
+    bd.add_instruction(ir.CJump(x, '==', x, ba, bb))
+    ba.add_instruction(ir.Jump(bj))
+    bb.add_instruction(ir.Jump(bj))
+    ph = ir.Phi('p', ir.i32)
+    bj.add_instruction(ph)
+    ph.set_incoming(ba, x)
+    ph.set_incoming(bb, x)
+    bj.add_instruction(ir.Exit())
+    out['fix_ru_phi'] = m
 
     def call2(m, x):
         e = ir.ExternalProcedure('xp', [ir.i32, ir.i32])
         m.add_external(e)
         return [ir.ProcedureCall(e, [x, x])]
-    out['fwd_call_args'] = fwd(call2, ir.i32)
+    out['fix_ru_call'] = fwd(call2, ir.i32)
     return out
 
 
@@ -182,12 +200,11 @@ def cfg_term(flags):
 # ---------------------------------------------------------------- corpus for the bounded theorem
 def forward_double_use(t):
     """does some instruction of the canonical module t use a value defined LATER in print order in two
-    operand slots (or a repeated call argument)?  Those hit the ir.replace_use defects (known findings)."""
+    operand slots (or as a repeated call argument)?  (the region of the former replace_use findings)"""
     for f in t[3]:
         defined = 0
         for b in f[4]:
             for i in b[2]:
-                refs = []
                 if i[0] == 'phi':
                     refs = [r for _, r in i[4]]
                 elif i[0] == 'callf':
@@ -207,23 +224,28 @@ def forward_double_use(t):
 
 
 def corpus_modules(irgen, irimport):
+    """16 generated modules, at least 5 of them with a forward double use / repeated forward call argument"""
     rng = random.Random(1600)
-    mods = []
+    plain, double = [], []
     k = 0
-    while len(mods) < 16 and k < 200:
+    while (len(plain) < 11 or len(double) < 5) and k < 400:
         feats = None if k % 2 else tuple(f for f in irgen.ALL_FEATURES if f != 'shuffle')
         m = irgen.gen_module(rng, size=1 + k % 3, features=feats, name='c%d' % k)
         k += 1
-        if not forward_double_use(irimport.module_to_py(m)):
-            mods.append(m)
-    return mods
+        if forward_double_use(irimport.module_to_py(m)):
+            if len(double) < 5:
+                double.append(m)
+        elif len(plain) < 11:
+            plain.append(m)
+    return plain + double
 
 
 def regen(ctx):
     """Gen/c16_corpus.v: generated modules (fixed seed) for the bounded round-trip theorem"""
     import irgen
     import irimport
-    mods = corpus_modules(irgen, irimport)
+    from ppci import ir
+    mods = corpus_modules(irgen, irimport) + [witnesses(ir)[k] for k in ('fix_ru_generic', 'fix_ru_phi', 'fix_ru_call')]
     text = ['(* generated by tools/props/c16.py from tools/gen/irgen.py (seed 1600); do not edit *)',
             'From PV Require Import Lib.Py Spec.IRSyntax.', 'From Coq Require Import String.', 'Open Scope Z_scope.',
             'Definition corpus : list modul := [']
@@ -260,10 +282,6 @@ def run(ctx):
                            'module_json': _safe_json(irio, wit[k]), 'difference': d,
                            'how_to_replay': 'PYTHONPATH=%s /venv/bin/python -c "import sys; sys.path[:0]=[\'/verif/tools\',\'/verif/tools/gen\']; '
                                             'from props import c16; c16.replay_witness(%r)"' % (REPO, k)})
-    for k in ('fwd_double_use', 'fwd_call_args'):
-        d = oracle(irimport, irutils, wit[k])
-        if d is not None:
-            ctx.violation({'fn': 'from_json(to_json(m))', 'key': k, 'class': classify(d), 'witness': k, 'difference': d})
     ctx.cov['stages']['implementation_flags'] = flags
     cfg = cfg_term(flags)
 
@@ -355,13 +373,14 @@ def replay_witness(k):
 
 
 MANIFEST = {
-    'text': 'proof (partial at module level): the code as it is loses Variable.value and volatile flags, cannot serialise '
-            'CopyBlob/Undefined and rejects forward operands (5 Coq refutations replayed on the implementation, 5 fix diffs); '
+    'text': 'proof (partial at module level): the code as found lost Variable.value and volatile flags, could not serialise '
+            'CopyBlob/Undefined, rejected forward operands and hit three replace_use defects of ir.py (8 Coq refutations, '
+            'each witness replayed on the implementation on every run; all fixed in /repo); '
             'on the repaired reader/writer model Coq proves (unbounded) the round trip of types, byte data, constants, '
             'externals and initialised global variables, and checks the whole-module round trip by vm_compute on a '
             'generated corpus (bounded); the unbounded instruction/module theorem is not proved',
     'note': 'trusted: hand model Model/IrJson.v (differentially checked against io.py on ~130 modules per run in both '
             'directions), irimport, json text layer. Not proved: the unbounded module theorem with forward-reference '
-            'patching; known findings in ir.replace_use (double use / repeated call argument of a forward value).',
+            'patching.',
     'technique': 'hand model + Coq proof + differential correspondence',
 }
